@@ -8,12 +8,16 @@ import pipeline
 import talgen
 
 PID = 'C04'
-PROOF_MODULES = ['ChamProofs.Props.C04', 'ChamProofs.Props.C04Spec']
+PROOF_MODULES = ['ChamProofs.Props.C04', 'ChamProofs.Props.C04Spec', 'ChamProofs.Props.C04Exists']
 THEOREMS = ['ChamVerif.C04_caught_set', 'ChamVerif.C04_caught_closure', 'ChamVerif.evalAlts_cons', 'ChamVerif.C04_pipe_first_success',
             'ChamVerif.C04_pipe_uncaught_propagates', 'ChamVerif.C04_cached_read_pure', 'ChamVerif.C04_name_template_first',
             'ChamVerif.C04_name_unbound', 'ChamVerif.C04_false_condition_skips', 'ChamVerif.C04_true_condition_renders',
             'ChamVerif.C04_unmatched_case_skips', 'ChamVerif.C04_matching_case_closes_first',
-            'ChamVerif.C04_replaced_original_not_evaluated', 'ChamVerif.C01_element_semantics_full']
+            'ChamVerif.C04_replaced_original_not_evaluated', 'ChamVerif.C01_element_semantics_full',
+            'ChamVerif.C04_exists_value',
+            'ChamVerif.C04_exists_caught',
+            'ChamVerif.C04_exists_propagates',
+            'ChamVerif.C04_exists_tuple_tie']
 LEVEL_TEXT = ('Proved in Lean: the classes a pipe moves on for are exactly {AttributeError, NameError, LookupError, TypeError, ValueError} as '
               'read from the live TalesExpr/ExistsExpr, closed under the subclass relation of the live exception classes '
               '(C04_caught_set, C04_caught_closure); for every pipe, if the alternatives before the k-th raised caught classes and the k-th '
@@ -26,7 +30,8 @@ LEVEL_TEXT = ('Proved in Lean: the classes a pipe moves on for are exactly {Attr
               'run (C04_false_condition_skips, C04_unmatched_case_skips); a matching case closes the switch before the element renders '
               '(C04_matching_case_closes_first); a tal:content / tal:replace value other than default is inserted from the cached value, the '
               'original is not evaluated (C04_replaced_original_not_evaluated). The evaluator is tied to the code by end-to-end correspondence with '
-              'recorder logs; arbitrary Python (lambdas, comprehensions, f-strings) is judged by differential testing against plain eval().')
+              'recorder logs; arbitrary Python (lambdas, comprehensions, f-strings) is judged by differential testing against plain eval().'
+              ' exists: turns exactly the classes of its own exception tuple (regenerated: AttributeError, LookupError, TypeError, NameError) into 0; every other exception of its operand — ValueError included, which a pipe moves on for — propagates (C04_exists_value / _caught / _propagates, tie C04_exists_tuple_tie).')
 LEVEL_NOTE = ('Trusted: Lean kernel; harness; Python\'s eval() as the reference for opaque expressions. Known findings: D-04a (a non-matching '
               'tal:case evaluates its expression twice), D-04b (dictionary entries of tal:attributes are evaluated before the named ones).')
 RULE = ('(a) talgen templates rich in pipes (length 1..4), prefixes (python, string, not, exists, structure and nestings) and recorder calls '
